@@ -10,6 +10,7 @@ import random
 
 import numpy as np
 
+import c16_scale
 import romsfiles as rf
 from coqbridge import fl
 
@@ -24,6 +25,10 @@ RULE = ("s2d: sample2D on generated fields (incl. exactly bilinear ones), masks 
         "grid: real ROMS.Grid from a synthetic file with random legal subgrids (i0 != j0), xy2ll / ll2xy / lonlat; "
         "gridbig: larger generated conformal grids, oracle only; e2e: ladim.main.main with lon/lat release (some rows released later) and lon/lat output, "
         "numrec in {0,1,2} (up to 6 files), sparse and dense layout, with and without lon/lat state variables, every record of every file checked. "
+        "scale (fixed, always first, oracle only; c16_scale.py): Grid.xy2ll / ll2xy on 1000 ... 130000 positions in one call (sizes straddling powers of two "
+        "and round numbers; a big release at one site plus one / a few reference rows near the corners, first / last / mid-table / scattered; blocks; uniform), "
+        "every row checked against the solver tolerance and the round-trip bound; bit-exact recovery on dyadic affine grids; sample2D on up to 130000 "
+        "positions in one call; ladim.main.main with lon/lat release tables of 5000 / 20000 rows (> 100000 instances written) and a 1200-step run, every instance checked. "
         "Non-trivial = distinct (kind, grid type, outcome class) x position class that reaches interpolation or the Newton update.")
 TRUSTED = ["Coq 8.16.1 kernel + vm_compute", "hand-written model coq/Model/Geo.v tied by this correspondence",
            "numpy elementwise float64 arithmetic = the scalar formula per particle (glue)", "netCDF4 round trip of float64 coordinate arrays"]
@@ -146,7 +151,8 @@ def arr_ints(A):
 def gen_cases(ctx):
     rng = ctx.rng
     q = ctx.quick
-    out = []
+    # fixed cases of realistic size first (they draw nothing from ctx.rng: the generated cases below are unchanged)
+    out = c16_scale.gen_scale_cases(q)
     for k in range(70 if q else 700):
         out.append({"k": "s2d", "stream": "exact" if k % 2 == 0 else "general", "seed": rng.getrandbits(48)})
     # fixed seeds with the field stored in a narrow integer type (applies when the drawn field is not the bilinear one)
@@ -177,7 +183,7 @@ def gen_cases(ctx):
 
 def eval_case(desc, ctx):
     return {"s2d": eval_s2d, "binv": eval_binv, "grid": eval_grid, "gridbig": eval_gridbig, "e2e": eval_e2e,
-            "polar_explicit": eval_polar_explicit, "binv_explicit": eval_binv}[desc["k"]](desc, ctx)
+            "polar_explicit": eval_polar_explicit, "binv_explicit": eval_binv, "scale": c16_scale.eval_scale}[desc["k"]](desc, ctx)
 
 
 # ------------------------------------------------------------------------------------------------
